@@ -11,7 +11,7 @@ from harness.props import common, c08
 LEVEL = "proof"
 
 
-def service_machine(rng):
+def service_machine(rng, machine=False):
     tid = itertools.count(1)
     mark = itertools.count(1)
     nodes = [Node(0, "m", None, "compound")]
@@ -28,13 +28,17 @@ def service_machine(rng):
     am = AM(nodes, max_iter=8)
     durs = rng.sample([100, 210, 430, 870], 4)
 
-    def invoke(s, iid, dur, okay, handled, src=1):
-        inv = Invoke(iid=iid, src=src, dur=dur, ok=okay, val=rng.randint(1, 9))
+    def invoke(s, iid, dur, okay, handled, src=1, machine=False):
+        inv = Invoke(iid=iid, src=src, dur=dur, ok=okay, val=rng.randint(1, 9), machine=machine)
         inv.ondone = [Trans(next(tid), s, "done.invoke." + iid, ok, actions=[("mark", next(mark))])]
         if handled:
             inv.onerror = [Trans(next(tid), s, "error.platform." + iid, bad, actions=[("mark", next(mark))])]
         nodes[s].invoke.append(inv)
-    invoke(work, rng.choice(["job", "m.work"]), durs[0], rng.random() < 0.7, rng.random() < 0.7)
+    if machine:
+        # the invoked service is a child MACHINE, under an explicit id that differs from the state's id
+        invoke(work, "job", durs[0], True, rng.random() < 0.5, machine=True)
+    else:
+        invoke(work, rng.choice(["job", "m.work"]), durs[0], rng.random() < 0.7, rng.random() < 0.7)
     if rng.random() < 0.4:
         invoke(work, "job2", durs[1], True, True, src=2)                 # two services on one state
     if rng.random() < 0.5:
@@ -69,10 +73,10 @@ def timed_ops(rng, n_ops):
     return ops
 
 
-def family(rng, n, engines=("async", "sync")):
+def family(rng, n, engines=("async", "sync"), machine=False):
     cases = []
     for i in range(n):
-        am = service_machine(rng)
+        am = service_machine(rng, machine)
         runs = [({}, timed_ops(rng, rng.randint(3, 7))) for _ in range(2)]
         cases.append((am, engines[i % len(engines)], runs, None))
     return cases
@@ -106,12 +110,21 @@ def monitor(am, engine, cx, events, snaps):
     entered_before, act_before = {}, {}
     handled_count = {}
     owners = {inv.iid: n.idx for n in am.nodes for inv in n.invoke}
+    active = set()
+    must_fail = None
     for o in log:
         if o[0] == "clock":
             now = o[1]
         elif o[0] == "enter":
             entered_at[o[1]] = now; act_no[o[1]] = act_no.get(o[1], 0) + 1
+            active.add(o[1])
+        elif o[0] == "leave":
+            active.discard(o[1])
         elif o[0] == "svc":
+            # a failure nobody handles puts the machine into the error status (sync engine: the service runs inline)
+            cands = [(n.idx, inv) for n in am.nodes for inv in n.invoke if inv.iid == o[1] and n.idx in active and inv.src]
+            if engine == "sync" and len(cands) == 1 and not cands[0][1].ok and not cands[0][1].onerror and must_fail is None:
+                must_fail = (cands[0][0], o[1])
             key = (o[1], act_no.get(owners.get(o[1]), 0))
             starts[key] = starts.get(key, 0) + 1
             if starts[key] > 1 and sum(1 for n in am.nodes for inv in n.invoke if inv.iid == o[1]) == 1 \
@@ -131,7 +144,9 @@ def monitor(am, engine, cx, events, snaps):
                     out.append(("the completion of service %s (takes %d ms) was handled at t=%d although its state %d was (re-)entered at "
                                 "t=%d: the result belongs to an earlier activation" % (inv.iid, inv.dur, now, owner, t_enter),
                                 dict(kind="stale-completion", cause="done-invoke-matched-by-src-and-type-only")))
-    # a failure nobody handles puts the machine into the error status
+    if must_fail is not None and snaps[-1]["status"] == 1 and not any(o[0] == "err" for o in log):
+        out.append(("service %s of state %d failed and its invoke declares no onError, but the machine is still running: an unhandled "
+                    "service failure must put the machine into the error status" % (must_fail[1], must_fail[0]), None))
     out.sort(key=lambda f: f[1] is not None)
     return out[:1]
 
@@ -145,12 +160,22 @@ def run(rep, ctx):
         "(rarely) unregistered; driven on the virtual clock: leave / re-enter / reenter-self before, at and after completion, waits, slow "
         "actions spanning the completion with leave / come-back queued behind them; async engine (tasks) and sync engine (inline call)")
 
+    # the invoked service is a child MACHINE (async engine): same bookkeeping, the task manages a child interpreter
+    dis2, fails2, _ = common.run_macro_property(
+        rep, ctx, "c09_machines", family(rng, 300 if big else 60, engines=("async",), machine=True), monitor,
+        "the same service machines with the first service being a child machine invoked under an explicit id that differs from its "
+        "state's id (async engine): left / re-entered before the child reaches its final state")
+    dis += dis2
+    fails += fails2
+
     def search(extra):
         _, f2, _ = common.run_macro_property(rep, ctx, "c09_search", family(random.Random(ctx["seed"] + 91), 300), monitor, "search: 300 more")
-        return f2
+        _, f3, _ = common.run_macro_property(rep, ctx, "c09_search_m", family(random.Random(ctx["seed"] + 92), 100, engines=("async",), machine=True),
+                                             monitor, "search: 100 more with child machines")
+        return f2 + f3
     core.decide(rep, ctx["proof"], dis, fails, search)
-    rep.assumptions += ["services are Recorder callables / coroutine functions with a fixed duration and outcome; child machines as src are "
-                        "exercised by C15's check", "input passing is checked by the Recorder (payload of the invoke event)"]
+    rep.assumptions += ["services are Recorder callables / coroutine functions with a fixed duration and outcome, or (async engine) a child "
+                        "machine that reaches its final state after that duration", "input passing is checked by the Recorder (payload of the invoke event)"]
 
 
 def replay(payload):
